@@ -127,25 +127,55 @@ Lemma once_spec g s :
   Some (match call_goal call g [] s with (x :: _, _) => ([x], false) | ([], e) => ([], e) end).
 Proof. reflexivity. Qed.
 
-(* findall(T, G, L): exactly the answers of unifying L with the list of the instances of T, computed
-   from the store of the CALL (sto s): no binding made by G survives *)
+(* findall(T, G, L): exactly the answers of unifying L with the list of the instances of T (one per
+   answer of G, in order), computed from the store of the CALL (sto s): no binding made by G survives.
+   Variables created while an answer of G was computed are renamed to fresh ones (collect). *)
 Lemma findall_spec t g l s xs :
   call_goal call g [] s = (xs, false) ->
   builtin call (s_ "findall") [t; g; l] s =
-  Some (unify_st {| sto := sto s; nxt := max_nxt s xs |} l (mk_list (map (fun x => den_fast (sto x) t) xs))).
+  Some (let '(es, b) := collect (nxt s) (max_nxt s xs) t xs in unify_st {| sto := sto s; nxt := b |} l (mk_list es)).
 Proof. intros H. change (builtin call (s_ "findall") [t; g; l] s) with
   (Some (let '(xs, e) := call_goal call g [] s in
          if e then ([], true) else
-         unify_st {| sto := sto s; nxt := max_nxt s xs |} l (mk_list (map (fun x => den_fast (sto x) t) xs)))).
+         let '(es, b) := collect (nxt s) (max_nxt s xs) t xs in unify_st {| sto := sto s; nxt := b |} l (mk_list es))).
   rewrite H. reflexivity. Qed.
+
+Lemma shift_id lo d u : (forall v, occurs v u = true -> v < lo) -> shift_term lo d u = u.
+Proof.
+  induction u as [a|z|q|w|f args IH] using term_ind'; intros B; cbn [shift_term]; auto.
+  - assert (L: w < lo) by (apply B; simpl; apply Nat.eqb_refl).
+    destruct (Nat.leb_spec lo w); [lia|reflexivity].
+  - f_equal. induction args as [|y r IHr]; simpl; auto. inversion IH; subst. f_equal.
+    + apply H1. intros v Hv. apply B. simpl. rewrite Hv. reflexivity.
+    + apply IHr; auto. intros v Hv. apply B. simpl in *. rewrite Hv. apply orb_true_r.
+Qed.
+
+(* one element per answer, in order *)
+Lemma collect_length lo t xs : forall base, length (fst (collect lo base t xs)) = length xs.
+Proof.
+  induction xs as [|x r IH]; intros base; cbn [collect]; [reflexivity|].
+  specialize (IH (base + (nxt x - lo))). destruct (collect lo (base + (nxt x - lo)) t r) as [es b]. cbn [fst length] in *. lia.
+Qed.
+
+(* when the instances contain no variable created inside G they are collected unchanged *)
+Lemma collect_older lo t xs : forall base,
+  (forall x, In x xs -> forall v, occurs v (den_fast (sto x) t) = true -> v < lo) ->
+  fst (collect lo base t xs) = map (fun x => den_fast (sto x) t) xs.
+Proof.
+  induction xs as [|x r IH]; intros base H; cbn [collect map]; [reflexivity|].
+  specialize (IH (base + (nxt x - lo)) (fun y Hy => H y (or_intror Hy))).
+  destruct (collect lo (base + (nxt x - lo)) t r) as [es b]. cbn [fst] in *. rewrite IH. f_equal.
+  apply shift_id. apply H. left; reflexivity.
+Qed.
 
 Lemma findall_at_most_once t g l s r : builtin call (s_ "findall") [t; g; l] s = Some r -> length (fst r) <= 1.
 Proof.
   change (builtin call (s_ "findall") [t; g; l] s) with
   (Some (let '(xs, e) := call_goal call g [] s in
          if e then ([], true) else
-         unify_st {| sto := sto s; nxt := max_nxt s xs |} l (mk_list (map (fun x => den_fast (sto x) t) xs)))).
+         let '(es, b) := collect (nxt s) (max_nxt s xs) t xs in unify_st {| sto := sto s; nxt := b |} l (mk_list es))).
   intros H. inversion H; subst. destruct (call_goal call g [] s) as [xs [|]]; cbn [fst length]; [lia|].
+  destruct (collect (nxt s) (max_nxt s xs) t xs) as [es b].
   unfold unify_st. destruct (unify_fast _ _ _ _); cbn [fst length]; lia.
 Qed.
 End BuiltinSpec.
